@@ -11,6 +11,7 @@ import Mathlib.Tactic.NormNum
 import Mathlib.Tactic.Push
 import Mathlib.Algebra.Order.Field.Power
 import Mathlib.Data.Rat.Floor
+import Mathlib.Data.Nat.Sqrt
 namespace Mpir.Mpf
 open Mpir
 
@@ -1641,6 +1642,181 @@ theorem set_q_eq_div (prec : ℕ) (num : ℤ) (den : ℕ) (hn : num ≠ 0) (hd :
     have h2 : (((prec + 1 : ℕ) : ℤ) - (((natLimbs num.natAbs).length : ℤ) - ((natLimbs den).length : ℤ) + 1) +
         (((-(((prec + 1 : ℕ) : ℤ) - (((natLimbs num.natAbs).length : ℤ) - ((natLimbs den).length : ℤ) + 1))).toNat : ℕ) : ℤ)).toNat = 0 := by omega
     rw [h2]; simp
+
+
+/-! ### square root -/
+
+/-- the radicand selection of sqrt.c:79-99 in natural numbers -/
+theorem sqrt_core (prec : ℕ) (hp : 1 ≤ prec) (ud : List Nat) (hlu : Limbs ud) (hnu : ud ≠ []) (htu : ud.getLast? ≠ some 0)
+    (tsize : ℕ) (ht : tsize = 2 * prec ∨ tsize = 2 * prec - 1) :
+    let t := val (top tsize ud) * B ^ (tsize - (top tsize ud).length)
+    t = (val ud * B ^ (tsize - ud.length)) / B ^ (ud.length - tsize) ∧
+    B ^ (prec - 1) ≤ Nat.sqrt t ∧ Nat.sqrt t < B ^ prec := by
+  intro t
+  have hts : 1 ≤ tsize := by omega
+  obtain ⟨t1, t2, t3, t4, t5, t6, _⟩ := top_facts tsize hts ud hlu hnu htu
+  have hT1 := val_ge_of_top _ t2 t3
+  have hT2 := val_lt _ t1
+  have e1 : t = (val ud * B ^ (tsize - ud.length)) / B ^ (ud.length - tsize) := by
+    show val (top tsize ud) * B ^ (tsize - (top tsize ud).length) = _
+    rcases Nat.eq_zero_or_pos (ud.length - tsize) with h | h
+    · have hle : ud.length ≤ tsize := by omega
+      rw [h, pow_zero, Nat.div_one, top_of_le hle]
+    · have hz : tsize - ud.length = 0 := by omega
+      have hz2 : tsize - (top tsize ud).length = 0 := by rw [t4]; omega
+      rw [hz, hz2, pow_zero, mul_one, mul_one, t5, Nat.add_mul_div_left _ _ (Bpow_pos _), Nat.div_eq_of_lt t6, zero_add]
+  have hlo : B ^ (tsize - 1) ≤ t := by
+    show B ^ (tsize - 1) ≤ val (top tsize ud) * B ^ (tsize - (top tsize ud).length)
+    have hnl : 1 ≤ ud.length := List.length_pos_of_ne_nil hnu
+    have : tsize - 1 = ((top tsize ud).length - 1) + (tsize - (top tsize ud).length) := by omega
+    rw [this, pow_add]; exact Nat.mul_le_mul_right _ hT1
+  have hhi : t < B ^ tsize := by
+    show val (top tsize ud) * B ^ (tsize - (top tsize ud).length) < _
+    have : tsize = (top tsize ud).length + (tsize - (top tsize ud).length) := by omega
+    conv_rhs => rw [this, pow_add]
+    exact Nat.mul_lt_mul_of_pos_right hT2 (Bpow_pos _)
+  refine ⟨e1, ?_, ?_⟩
+  · rw [Nat.le_sqrt, ← pow_add]
+    exact le_trans (Nat.pow_le_pow_right B_pos (by omega)) hlo
+  · rw [Nat.sqrt_lt, ← pow_add]
+    exact lt_of_lt_of_le hhi (Nat.pow_le_pow_right B_pos (by omega))
+
+
+theorem sqrt_spec (prec : ℕ) (hp : 1 ≤ prec) (u : F) (hu : OpWF u) (hpos : 0 < u.size) :
+    ∃ r, sqrt prec u = .ok r ∧ WF r ∧ 0 < toQ r ∧ (toQ r) ^ 2 ≤ toQ u ∧
+      toQ u < (toQ r * (1 + 1 / (B : ℚ) ^ (prec - 1))) ^ 2 ∧
+      (∀ x : ℚ, 0 ≤ x → x ^ 2 = toQ u → Fits x (PREC_TO_BITS prec) → toQ r = x) := by
+  have hnu : u.d ≠ [] := fun h => by have := hu.2.1; rw [h] at this; simp at this; omega
+  obtain ⟨od, hod, hod2⟩ : ∃ od : ℕ, u.exp % 2 = (od : ℤ) ∧ (od = 0 ∨ od = 1) := by
+    rcases Int.emod_two_eq_zero_or_one u.exp with h | h
+    · exact ⟨0, by simpa using h, Or.inl rfl⟩
+    · exact ⟨1, by simpa using h, Or.inr rfl⟩
+  obtain ⟨e, he⟩ : ∃ e : ℤ, u.exp + (od : ℤ) = 2 * e := ⟨(u.exp + od) / 2, by omega⟩
+  have hts : 2 * prec - od = 2 * prec ∨ 2 * prec - od = 2 * prec - 1 := by rcases hod2 with h | h <;> rw [h] <;> simp
+  obtain ⟨c1, c2, c3⟩ := sqrt_core prec hp u.d hu.1 hnu hu.2.2.1 (2 * prec - od) hts
+  set t := val (top (2 * prec - od) u.d) * B ^ (2 * prec - od - (top (2 * prec - od) u.d).length) with ht
+  set s := Nat.sqrt t with hs
+  have hs1 : s * s ≤ t := Nat.sqrt_le t
+  have hs2 : t < (s + 1) * (s + 1) := Nat.lt_succ_sqrt t
+  have hval : val (toLimbs prec s) = s := val_toLimbs_of_lt c3
+  have hlen := toLimbs_length prec s
+  -- the model's result
+  have hres : sqrt prec u = .ok ⟨prec, prec, e, toLimbs prec s⟩ := by
+    unfold sqrt
+    rw [if_neg (by omega), if_neg (by omega)]
+    simp only [hod, Int.toNat_natCast]
+    have : (u.exp + (od : ℤ)) / 2 = e := by omega
+    rw [this]
+  have hQ : (0 : ℚ) < (B : ℚ) ^ (prec - 1) := pow_pos Bq_pos _
+  set ulp : ℚ := (B : ℚ) ^ (e - (prec : ℤ)) with hulp
+  have hulp0 : 0 < ulp := zpow_pos Bq_pos _
+  have hrq : toQ ⟨prec, prec, e, toLimbs prec s⟩ = (s : ℚ) * ulp := by
+    unfold toQ; dsimp only
+    rw [if_neg (by omega), hval, hlen]; ring
+  have hspos : (0 : ℚ) < (s : ℚ) := by
+    have : 0 < s := lt_of_lt_of_le (Bpow_pos _) c2
+    exact_mod_cast this
+  -- the operand in units of ulp^2
+  set N := val u.d * B ^ (2 * prec - od - u.d.length) with hN
+  set K := B ^ (u.d.length - (2 * prec - od)) with hK
+  have hKpos : (0 : ℚ) < (K : ℚ) := by exact_mod_cast Bpow_pos _
+  have huq : toQ u = ((N : ℚ) / (K : ℚ)) * ulp ^ 2 := by
+    rw [toQ_def', if_pos (by omega), one_mul, hN, hK, hulp]
+    push_cast
+    rw [mul_div_assoc, mul_assoc]
+    congr 1
+    have := List.length_pos_of_ne_nil hnu
+    rw [← zpow_natCast (B : ℚ) (2 * prec - od - u.d.length), ← zpow_natCast (B : ℚ) (u.d.length - (2 * prec - od)),
+      ← zpow_natCast ((B : ℚ) ^ (e - (prec : ℤ))) 2, ← zpow_mul, ← zpow_sub₀ Bq_ne, ← zpow_add₀ Bq_ne]
+    congr 1
+    push_cast
+    omega
+  have htN : (t : ℚ) ≤ (N : ℚ) / K := by
+    rw [le_div_iff₀ hKpos, c1]; exact_mod_cast Nat.div_mul_le_self N K
+  have hNt : (N : ℚ) / K < (t : ℚ) + 1 := by
+    rw [div_lt_iff₀ hKpos, c1]
+    have : N < (N / K + 1) * K := (Nat.div_lt_iff_lt_mul (Bpow_pos _)).mp (Nat.lt_succ_self _)
+    exact_mod_cast this
+  have h1 : ((s : ℚ)) ^ 2 ≤ (N : ℚ) / K := by
+    have : ((s * s : ℕ) : ℚ) ≤ (t : ℚ) := by exact_mod_cast hs1
+    push_cast at this; nlinarith
+  have h2 : (N : ℚ) / K < ((s : ℚ) + 1) ^ 2 := by
+    have : ((t + 1 : ℕ) : ℚ) ≤ (((s + 1) * (s + 1) : ℕ) : ℚ) := by exact_mod_cast hs2
+    push_cast at this; nlinarith
+  have hsQ : (B : ℚ) ^ (prec - 1) ≤ (s : ℚ) := by exact_mod_cast c2
+  clear_value ulp N K s t
+  refine ⟨_, hres, ?_, ?_, ?_, ?_, ?_⟩
+  · refine ⟨Limbs_toLimbs _ _, by rw [hlen]; simp, by simp, ?_, fun h => by simp at h; omega⟩
+    apply top_ne_zero_of_val_ge _ (Limbs_toLimbs _ _)
+    · intro h; rw [h] at hlen; simp at hlen; omega
+    · rw [hlen, hval]; exact c2
+  · rw [hrq]; positivity
+  · rw [hrq, huq, mul_pow]; exact mul_le_mul_of_nonneg_right h1 (by positivity)
+  · rw [hrq, huq]
+    have : (s : ℚ) + 1 ≤ (s : ℚ) * (1 + 1 / (B : ℚ) ^ (prec - 1)) := by
+      rw [mul_add, mul_one, mul_one_div, add_le_add_iff_left, le_div_iff₀ hQ]; linarith
+    have h3 : ((s : ℚ) + 1) ^ 2 ≤ ((s : ℚ) * (1 + 1 / (B : ℚ) ^ (prec - 1))) ^ 2 :=
+      pow_le_pow_left₀ (by positivity) this 2
+    calc (N : ℚ) / K * ulp ^ 2 < ((s : ℚ) + 1) ^ 2 * ulp ^ 2 := mul_lt_mul_of_pos_right h2 (by positivity)
+      _ ≤ ((s : ℚ) * (1 + 1 / (B : ℚ) ^ (prec - 1))) ^ 2 * ulp ^ 2 := mul_le_mul_of_nonneg_right h3 (by positivity)
+      _ = _ := by ring
+  · intro x hx0 hxu hfit
+    rw [hrq]
+    obtain ⟨m, k, hm, hmp⟩ := hfit
+    -- y = x / ulp lies in [s, s+1)
+    have hy1 : ((s : ℚ) * ulp) ^ 2 ≤ x ^ 2 := by rw [hxu, huq, mul_pow]; exact mul_le_mul_of_nonneg_right h1 (by positivity)
+    have hy2 : x ^ 2 < (((s : ℚ) + 1) * ulp) ^ 2 := by
+      rw [hxu, huq, mul_pow]; exact mul_lt_mul_of_pos_right h2 (by positivity)
+    have hx1 : (s : ℚ) * ulp ≤ x := (pow_le_pow_iff_left₀ (by positivity) hx0 two_ne_zero).mp hy1
+    have hx2 : x < ((s : ℚ) + 1) * ulp := (pow_lt_pow_iff_left₀ hx0 (by positivity) two_ne_zero).mp hy2
+    have hxpos : 0 < x := lt_of_lt_of_le (by positivity) hx1
+    -- x = m·2^k with 0 < m < 2^p ≤ s, so x/ulp = m·2^j with j ≥ 1: an integer in [s, s+1)
+    have two_ne : (2 : ℚ) ≠ 0 := by norm_num
+    have h2k : (0 : ℚ) < (2 : ℚ) ^ k := zpow_pos (by norm_num) _
+    have hmpos : 0 < m := by
+      by_contra hc
+      have : (m : ℚ) ≤ 0 := by exact_mod_cast (not_lt.mp hc)
+      nlinarith
+    have hulp2 : ulp = (2 : ℚ) ^ (64 * (e - (prec : ℤ))) := by rw [hulp, Bq_eq, ← zpow_natCast, ← zpow_mul]; norm_num
+    have hsp : (2 : ℚ) ^ (PREC_TO_BITS prec) ≤ (s : ℚ) := by
+      have : ((B ^ (prec - 1) : ℕ) : ℚ) = (2 : ℚ) ^ (PREC_TO_BITS prec) := by exact_mod_cast Bpow_eq_two_pow prec
+      rw [← this]; exact_mod_cast c2
+    have hmq : (m : ℚ) < (2 : ℚ) ^ (PREC_TO_BITS prec) := by
+      have : m < 2 ^ (PREC_TO_BITS prec) := by rwa [abs_of_pos hmpos] at hmp
+      exact_mod_cast this
+    have hk : 64 * (e - (prec : ℤ)) < k := by
+      by_contra hc
+      push Not at hc
+      have : (2 : ℚ) ^ k ≤ ulp := by rw [hulp2]; exact zpow_le_zpow_right₀ (by norm_num) hc
+      have hm0 : (0 : ℚ) < (m : ℚ) := by exact_mod_cast hmpos
+      nlinarith
+    obtain ⟨j, hj⟩ : ∃ j : ℕ, k = 64 * (e - (prec : ℤ)) + j := ⟨(k - 64 * (e - (prec : ℤ))).toNat, by omega⟩
+    have hxy : x = ((m.toNat * 2 ^ j : ℕ) : ℚ) * ulp := by
+      rw [hm, hj, zpow_add₀ two_ne, ← hulp2, zpow_natCast]
+      have : ((m.toNat : ℕ) : ℚ) = (m : ℚ) := by
+        have : ((m.toNat : ℕ) : ℤ) = m := Int.toNat_of_nonneg (le_of_lt hmpos)
+        exact_mod_cast this
+      push_cast; rw [this]; ring
+    rw [hxy] at hx1 hx2 ⊢
+    have g1 : (s : ℚ) ≤ ((m.toNat * 2 ^ j : ℕ) : ℚ) := le_of_mul_le_mul_right hx1 hulp0
+    have g2 : ((m.toNat * 2 ^ j : ℕ) : ℚ) < (s : ℚ) + 1 := lt_of_mul_lt_mul_right hx2 (le_of_lt hulp0)
+    have g1' : s ≤ m.toNat * 2 ^ j := by exact_mod_cast g1
+    have g2' : m.toNat * 2 ^ j < s + 1 := by exact_mod_cast g2
+    have : m.toNat * 2 ^ j = s := by omega
+    rw [this]
+
+
+theorem sqrt_ui_eq_sqrt (prec : ℕ) (hp : 1 ≤ prec) (w : ℕ) (h0 : w ≠ 0) :
+    sqrt prec (ofLimb w) = .ok (sqrt_ui prec w) := by
+  unfold sqrt sqrt_ui ofLimb
+  rw [if_neg (by norm_num), if_neg (by norm_num), if_neg h0]
+  have h1 : ((1 : ℤ) % 2).toNat = 1 := by decide
+  have h2 : ((1 : ℤ) + 1 % 2) / 2 = 1 := by decide
+  simp only [h1, h2]
+  have h3 : top (2 * prec - 1) [w] = [w] := top_of_le (by simp; omega)
+  rw [h3]
+  simp only [val, List.length_cons, List.length_nil]
+  congr 4
 
 
 end Mpir.Mpf
